@@ -346,6 +346,35 @@ func c04Judge(c *mon.Ctx, in *c04Case) {
 	// ---- sign through the library
 	tx := s.BuildShared()
 	signed := s.Clone()
+	if in.Via != "FillAllInputs" && in.MutSeed%3 == 0 {
+		// The object has a history: an earlier state of it (one more input, of a
+		// kind the signer does not support, and another lock time) went through a
+		// FillAllInputs run that failed. It is then put into the state to be
+		// signed. Nothing of the failed run may influence the signature.
+		extra := &bt.Input{PreviousTxOutIndex: 9, SequenceNumber: 1, PreviousTxSatoshis: 5,
+			PreviousTxScript: bscript.NewFromBytes(append(gen.Push(pubBytes), 0xac))}
+		_ = extra.PreviousTxIDAdd(bytes.Repeat([]byte{0x77}, 32))
+		saved := make([]*bscript.Script, len(tx.Inputs))
+		for j := range tx.Inputs {
+			saved[j] = tx.Inputs[j].UnlockingScript
+		}
+		lt := tx.LockTime
+		tx.Inputs = append(tx.Inputs, extra)
+		tx.LockTime ^= 0x5555
+		var ferr error
+		if c.Try("bt.(*Tx).FillAllInputs", func() { ferr = tx.FillAllInputs(context.Background(), &unlocker.Getter{PrivateKey: priv}) }) {
+			if ferr != nil {
+				c.Count("history:failed-FillAllInputs-before-signing")
+			} else {
+				c.Count("history:FillAllInputs-before-signing-succeeded")
+			}
+		}
+		tx.Inputs = tx.Inputs[:len(tx.Inputs)-1]
+		tx.LockTime = lt
+		for j := range tx.Inputs {
+			tx.Inputs[j].UnlockingScript = saved[j]
+		}
+	}
 	var serr error
 	switch in.Via {
 	case "FillAllInputs":
